@@ -38,6 +38,7 @@ type Harness struct {
 	StrLen        int             // string length bound of the bounded (stage B) encoding
 	StageATimeout int             // ms: limit for the unbounded SMT-string attempt
 	Havoc         map[string]bool // functions replaced by fresh results (harness-declared over-approximation)
+	Ideal         bool            // replace first-party CFB cipher by its ideal model (flow harnesses)
 	Guess         bool            // try guess-and-check models first (large strings)
 	NoValidate    bool            // no native validation samples (harness depends on uncontrollable native state, e.g. wall-clock nanoseconds)
 	Upgrade       bool            // try to upgrade bounded unsat verdicts of obligations to unbounded ones
@@ -270,6 +271,8 @@ func (w *World) load() error {
 								for _, f := range strings.Split(v, ",") {
 									h.Havoc[f] = true
 								}
+							case "ideal":
+								h.Ideal = true
 							case "guess":
 								h.Guess = true
 							case "novalidate":
